@@ -4,7 +4,8 @@
    they are quantified variables here and every fact used about them is a visible premise.
    [res] = Ok v | Err code | Panic ("the Go code would panic here"). *)
 From Coq Require Import List ZArith Bool Arith.
-From V Require Import Lib.Enc Gen.Cryptz Model.Aes Proofs.AesPkcs7 Proofs.AesCbc Proofs.AesMem Proofs.AesRefine.
+From V Require Import Lib.GoSem Lib.GoSemRec Gen.AesCode.
+From V Require Import Lib.Enc Gen.Cryptz Model.Aes Proofs.AesPkcs7 Proofs.AesCbc Proofs.AesMem Proofs.AesRefine Run.C08 Run.C08Code Proofs.AesCode.
 Import ListNotations.
 
 (* ---- length helpers are exact (the `& blockSizeMask` arithmetic is `mod 16`) *)
@@ -221,3 +222,66 @@ Theorem c08_model_meets_spec : forall (E D : bytes -> bytes -> bytes)
   forall o, op_wf open o -> spec_ok std_enc std_dec seal open o (run_op E D seal open o) = true.
 Proof. exact model_meets_spec. Qed.
 Print Assumptions c08_model_meets_spec.
+
+(* ---- the tie between the Go code and the model above, re-established on every run.
+   Gen/AesCode.v is the translation of the CURRENT bodies of golib's own code in cryptz/aes.go — the init() that builds
+   prePadPatterns, the four length helpers, pkcs7UnPadding, AESCBCEncrypt / AESCBCDecrypt / AESGCMEncrypt / AESGCMDecrypt and
+   PKCS7Padding / PKCS7UnPadding / PKCS5Padding / PKCS5UnPadding — gen/trans.go + gen/trans_ext08.go, see gen/TRANSLATOR.md.
+   The Go standard library is not translated: the generated functions take it as a parameter, instantiated here with
+   [std E D seal open] (Run/C08Code.v): bytes.Repeat / Equal, aes.NewCipher (key sizes), NewCBCEncrypter / Decrypter (IV
+   length panic), CryptBlocks (whole blocks, dst at least as long as src, the SP 800-38A chain over E / D written over the
+   front of dst), NewGCMWithNonceSize (zero nonce size), Seal / Open appending to dst[:0] inside dst when it is long
+   enough — what Model/Aes.v itself assumes, for ALL block functions E D and all seal / open.
+   Each generated function equals the hand-written model function the theorems above are about:
+   - init(), run on the zero value of the [17][]byte table with fuel f, for every f: NoFuel below 18 (17 patterns, 18 loop
+     tests), from 18 on exactly the model's pad_table;
+   - the length helpers, for every byte string; pkcs7UnPadding on that table, for every buffer: (n, nil) / (0, err) / panic
+     as unpad_tbl says Ok n / Err / Panic (int_res);
+   - the four buffer functions at the model's functional level (dst and src separate values; c08_alias_* above tie it to
+     the memory level): they return (final dst, results); view_dst compares the buffer on success and the error code
+     otherwise (the model does not say what dst holds after an error).  AESCBCEncrypt: up to CryptBlocks without any
+     premise (cbc_encrypt_prep, then the chain copied over dst); equal to cbc_encrypt when E returns 16-byte blocks - the
+     premise of c08_cbc_encrypt_spec (the model writes the chain without looking at its length);
+   - PKCS7Padding / PKCS7UnPadding / PKCS5*: (bytes, nil) / (nil, err) / panic as the model says (bytes_res), for every
+     data and every int block size. *)
+Theorem c08_code_is_model : forall (E D : bytes -> bytes -> bytes)
+  (seal : bytes -> bytes -> bytes -> bytes -> bytes) (open : bytes -> bytes -> bytes -> bytes -> option bytes),
+  let X := std E D seal open in
+  (forall fuel, g_init_prePadPatterns fuel X g0_prePadPatterns = if 18 <=? fuel then Ret pad_table else NoFuel) /\
+  (forall p, g_AESCBCEncryptLen p = Ret (cbc_encrypt_len (length p))) /\
+  (forall p, g_AESCBCDecryptLen p = Ret (cbc_decrypt_len (length p))) /\
+  (forall p, g_AESGCMEncryptLen p = Ret (gcm_encrypt_len (length p))) /\
+  (forall p, g_AESGCMDecryptLen p = Ret (gcm_decrypt_len (length p))) /\
+  (forall d, g_pkcs7UnPadding X pad_table d = int_res (unpad_tbl d)) /\
+  (forall dst plain key iv,
+     mmap view_dst (g_AESCBCEncrypt X pad_table dst plain key iv) =
+     dst_res (match cbc_encrypt_prep dst plain key iv with
+              | Ok d2 => Ok (copy_into d2 (cbc_enc_bytes E key iv d2)) | Err e => Err e | Panic => Panic end)) /\
+  ((forall k b, good_key k = true -> length b = 16 -> length (E k b) = 16) -> forall dst plain key iv,
+     mmap view_dst (g_AESCBCEncrypt X pad_table dst plain key iv) = dst_res (cbc_encrypt E dst plain key iv)) /\
+  (forall dst ct key iv,
+     mmap view_dst_n (g_AESCBCDecrypt X pad_table dst ct key iv) = dst_n_res (cbc_decrypt D dst ct key iv)) /\
+  (forall dst plain key nonce ad,
+     mmap view_dst (g_AESGCMEncrypt X dst plain key nonce ad) = dst_res (gcm_encrypt seal dst plain key nonce ad)) /\
+  (forall dst ct key nonce ad,
+     mmap view_dst (g_AESGCMDecrypt X dst ct key nonce ad) = dst_res (gcm_decrypt open dst ct key nonce ad)) /\
+  (forall d bs, g_PKCS7Padding X d bs = bytes_res (pkcs7_pad d bs)) /\
+  (forall d bs, g_PKCS7UnPadding X d bs = bytes_res (pkcs7_unpad d bs)) /\
+  (forall d, g_PKCS5Padding X d = bytes_res (pkcs5_pad d)) /\
+  (forall d, g_PKCS5UnPadding X d = bytes_res (pkcs5_unpad d)).
+Proof.
+  intros E D seal open X.
+  exact (conj (code_init_fuel E D seal open) (conj (code_AESCBCEncryptLen E D seal open) (conj (code_AESCBCDecryptLen E D seal open) (conj (code_AESGCMEncryptLen E D seal open)
+        (conj (code_AESGCMDecryptLen E D seal open) (conj (code_pkcs7UnPadding E D seal open) (conj (code_AESCBCEncrypt_prep E D seal open)
+        (conj (code_AESCBCEncrypt E D seal open) (conj (code_AESCBCDecrypt E D seal open) (conj (code_AESGCMEncrypt E D seal open)
+        (conj (code_AESGCMDecrypt E D seal open) (conj (code_PKCS7Padding E D seal open) (conj (code_PKCS7UnPadding E D seal open)
+        (conj (code_PKCS5Padding E D seal open) (code_PKCS5UnPadding E D seal open))))))))))))))).
+Qed.
+Print Assumptions c08_code_is_model.
+
+(* the case interpreter of the correspondence run with the value operations (length helpers, PKCS7 / PKCS5 padding and
+   un-padding) executed through the generated functions (Run/C08Code.v) gives the output of `entry` on every case: on those
+   kinds the differential run of entry 0 against the compiled package is a run of the generated code *)
+Theorem c08_entry_runs_generated_code : forall sub args, entry_code sub args = entry sub args.
+Proof. exact entry_code_is_entry. Qed.
+Print Assumptions c08_entry_runs_generated_code.
